@@ -29,7 +29,7 @@ PY_ONLY = {"C12.unpack_raises_only_PacketError", "C12.pack_raises_only_PacketErr
 
 
 def mc_cfg(universe, invariants, lenbonus=0, emit=True, part=0, nparts=1):
-    lines = ["SPECIFICATION Spec", "CONSTANT U <- %s" % universe, "CONSTANTS Part = %d NParts = %d" % (part, nparts)]
+    lines = ["SPECIFICATION Spec", "CONSTANT UName = \"%s\"" % universe, "CONSTANTS Part = %d NParts = %d" % (part, nparts)]
     if lenbonus:
         lines.append("CONSTANT LenBonus <- LB%d" % lenbonus)
     for i in invariants:
